@@ -207,5 +207,344 @@ def translate(ctx):
     return ex
 
 
+
+# ---- generated C programs (token lines) ------------------------------------------------------------------------------
+TOKRE = re.compile(r"""[A-Za-z_$][A-Za-z_0-9$]*|\d[\w.]*|"(?:[^"\\]|\\.)*"|'(?:[^'\\]|\\.)*'|<<=|>>=|\.\.\.|->|\+\+|--|<<|>>|<=|>=|==|!=|&&|\|\||[-+*/%&|^]=|\S""")
+
+# each template: list of blocks; a block = (kind, lines).  kind "struct" | "func".  $names are instantiated per use;
+# names starting with $F are functions (prototype derived from the first line of the block).
+TEMPLATES = {
+    "nullPointer": [("func", ["void $Ff(void) {", "int *$p = 0;", "*$p = 1;", "}"])],
+    "nullPointerRedundantCheck": [("func", ["int $Ff(int *$p) {", "if ($p == 0) {", "}", "return *$p;", "}"])],
+    "arrayIndexOutOfBounds": [("func", ["void $Ff(void) {", "int $a[10];", "$a[10] = 0;", "}"])],
+    "arrayLoop": [("func", ["void $Ff(void) {", "int $a[5];", "int $i;", "for ($i = 0; $i <= 5; $i++) {", "$a[$i] = 0;", "}", "}"])],
+    "uninitvar": [("func", ["int $Ff(void) {", "int $a;", "return $a;", "}"])],
+    "zerodiv": [("func", ["int $Ff(int $x) {", "int $z = 0;", "return $x / $z;", "}"])],
+    "zerodivcond": [("func", ["int $Ff(int $x) {", "int $r = 100 / $x;", "if ($x == 0) {", "$r = 0;", "}", "return $r;", "}"])],
+    "memleak": [("func", ["void $Ff(void) {", "char *$p = malloc(10);", "if ($p) {", "$p[0] = 0;", "}", "}"])],
+    "memleakRet": [("func", ["int $Ff(int $n) {", "char *$p = malloc(10);", "if ($n) {", "return 1;", "}", "free($p);", "return 0;", "}"])],
+    "unusedVariable": [("func", ["void $Ff(void) {", "int $a;", "}"])],
+    "knownCondition": [("func", ["int $Ff(void) {", "int $x = 5;", "if ($x == 5) {", "return 1;", "}", "return 0;", "}"])],
+    "shadow": [("func", ["int $Ff(int $n) {", "int $x = $n;", "{", "int $x = 2;", "$n += $x;", "}", "return $x + $n;", "}"])],
+    "shadowLate": [("func", ["int $Ff(int $n) {", "{", "int $x = 2;", "$n += $x;", "}", "int $x = $n;", "return $x + $n;", "}"])],
+    "structUnion": [("struct", ["struct $S {", "int $a;", "union {", "int $b;", "char $c;", "};", "};"]),
+                    ("func", ["int $Ff(void) {", "struct $S $s;", "$s.$b = 1;", "return $s.$a;", "}"])],
+    "structPlain": [("struct", ["struct $S {", "int $a;", "int $b;", "};"]),
+                    ("func", ["int $Ff(void) {", "struct $S $s;", "$s.$a = 1;", "return $s.$a + $s.$b;", "}"])],
+    "variableScope": [("func", ["int $Ff(int $n) {", "int $i = 0;", "if ($n) {", "$i = $n * 2;", "return $i;", "}", "return 0;", "}"])],
+    "redundantAssignment": [("func", ["int $Ff(void) {", "int $x;", "$x = 1;", "$x = 2;", "return $x;", "}"])],
+    "calleeDiv": [("func", ["static int $Fg(int $d) {", "return 100 / $d;", "}"]), ("func", ["int $Ff(void) {", "return $Fg(0);", "}"])],
+    "calleeNull": [("func", ["static void $Fg(int *$q) {", "*$q = 0;", "}"]), ("func", ["void $Ff(void) {", "$Fg(0);", "}"])],
+    "calleeCond": [("func", ["static int $Fg(int $v) {", "if ($v > 10) {", "return 1;", "}", "return 0;", "}"]),
+                   ("func", ["int $Ff(void) {", "return $Fg(3) + $Fg(4);", "}"])],
+    "constParam": [("func", ["int $Ff(int *$p) {", "return *$p;", "}"])],
+    "unsignedLess": [("func", ["int $Ff(unsigned $u) {", "if ($u < 0) {", "return 1;", "}", "return 0;", "}"])],
+    "duplicateExpr": [("func", ["int $Ff(int $a) {", "return $a == $a;", "}"])],
+    "duplicateBranch": [("func", ["int $Ff(int $a) {", "int $r;", "if ($a) {", "$r = 1;", "} else {", "$r = 1;", "}", "return $r;", "}"])],
+    "switchFall": [("func", ["int $Ff(int $x) {", "switch ($x) {", "case 1:", "$x = 2;", "case 2:", "$x = 3;", "break;", "}", "return $x;", "}"])],
+    "bufferOverrun": [("func", ["void $Ff(void) {", "char $b[4];", "strcpy($b, \"toolong\");", "}"])],
+    "selfAssign": [("func", ["void $Ff(int $a) {", "$a = $a;", "}"])],
+    "ptrArith": [("func", ["int $Ff(const int *$p, int $n) {", "int $s = 0;", "while ($n > 0) {", "$s += *$p;", "$p++;", "$n--;", "}", "return $s;", "}"])],
+    "cleanLoop": [("func", ["int $Ff(int $n) {", "int $s = 0;", "int $i;", "for ($i = 0; $i < $n; $i++) {", "$s += $i;", "}", "return $s;", "}"])],
+    "oppositeInner": [("func", ["int $Ff(int $a) {", "if ($a > 3) {", "if ($a < 2) {", "return 1;", "}", "}", "return 0;", "}"])],
+    "intOverflowShift": [("func", ["int $Ff(void) {", "int $x = 1;", "return $x << 40;", "}"])],
+    "doubleFree": [("func", ["void $Ff(void) {", "char *$p = malloc(4);", "free($p);", "free($p);", "}"])],
+    "useAfterFree": [("func", ["char $Ff(void) {", "char *$p = malloc(4);", "free($p);", "return *$p;", "}"])],
+    "globalUse": [("func", ["int $Ff(void) {", "static int $c = 0;", "$c++;", "return $c;", "}"])],
+}
+
+NAME_POOL = """alpha beta gamma delta omega sigma kappa lambda_ theta zeta apple berry cherry mango peach lemon melon grape olive
+walnut acorn birch cedar maple willow aspen spruce falcon heron raven finch robin wren otter badger ferret lynx marten weasel quartz
+basalt granite marble onyx topaz amber coral ivory jade pearl ruby cobalt copper nickel silver bronze pewter ac bd ce df eg fh gi hj
+ik jl km ln mo np oq pr qs rt su tv uw vx wy xz aa1 bb2 cc3 dd4 ee5 ff6 gg7 hh8 ii9 Ax By Cz Dw Ev Fu a_b c_d e_f g_h i_j k_l m_n o_p
+q_r s_t u_v w_x y_z cnt0 idx1 buf2 ptr3 len4 val5 tmp6 res7 acc8 num9 xx yy zz vv ww qq kk jj nn mm""".split()
+
+
+def tokenize_line(text):
+    return TOKRE.findall(text)
+
+
+class Prog:
+    """lines = list of dict(toks=[...], depth=int, block=int); blocks = list of dict(kind, lines idx, name)"""
+    def __init__(self):
+        self.lines = []
+        self.blocks = []
+        self.names = []       # every identifier the program declares (renamable)
+
+
+def gen_program(rng, reserved_all, nfun=None, kinds=None):
+    pool = [n for n in NAME_POOL if n not in reserved_all]
+    rng.shuffle(pool)
+    used = iter(pool)
+    kinds = kinds or [rng.choice(sorted(TEMPLATES)) for _ in range(nfun or rng.choice([2, 3, 3, 4, 5]))]
+    blocks = []          # (kind, [token lists], protoline or None)
+    names = []
+    for kd in kinds:
+        inst = {}
+        for (bk, lines) in TEMPLATES[kd]:
+            tl = []
+            for ln in lines:
+                def sub(m):
+                    k = m.group(0)
+                    if k not in inst:
+                        inst[k] = next(used)
+                        names.append(inst[k])
+                    return inst[k]
+                tl.append(tokenize_line(re.sub(r"\$[A-Za-z]+", sub, ln)))
+            proto = None
+            if bk == "func":
+                proto = tl[0][:-1] + [";"]
+            blocks.append(dict(kind=bk, lines=tl, proto=proto, tmpl=kd))
+    structs = [b for b in blocks if b["kind"] == "struct"]
+    funcs = [b for b in blocks if b["kind"] == "func"]
+    return dict(structs=structs, funcs=funcs, names=names, kinds=kinds)
+
+
+def layout_default(prog, order=None):
+    """list of lines (each: list of tokens) in file order: structs, prototypes, function definitions"""
+    funcs = prog["funcs"] if order is None else [prog["funcs"][i] for i in order]
+    lines = []
+    for b in prog["structs"]:
+        lines += [list(t) for t in b["lines"]]
+    for b in prog["funcs"]:
+        lines.append(list(b["proto"]))
+    for b in funcs:
+        lines += [list(t) for t in b["lines"]]
+    return lines
+
+
+def needs_space(a, b):
+    """must two adjacent tokens be separated to lex as themselves?"""
+    wa, wb = a[-1], b[0]
+    if (wa.isalnum() or wa in "_$") and (wb.isalnum() or wb in "_$"):
+        return True
+    if a[0].isdigit() and b[0] in "'.":
+        return True
+    if b[0] in "\"'" and a in ("u", "U", "L", "u8", "R", "uR", "UR", "LR", "u8R"):
+        return True
+    two = wa + wb
+    if len(a) <= 2 and len(b) <= 2 and (two in ("//", "/*", "++", "--", "&&", "||", "::", "->", "<<", ">>", "==", "!=", "<=", ">=", "+=", "-=", "*=",
+                                                    "/=", "%=", "&=", "|=", "^=", "..") or (wa in "<>" and wb == "=")):
+        return True
+    if a in (".", "...") and (b[0].isdigit() or b[0] == "."):
+        return True
+    if a[0].isdigit() and b in ("+", "-", ".", "..."):
+        return True
+    if a in ("+", "-", "++", "--") and (b[0] in "+-" or b[0].isdigit()):
+        return True
+    if b in ("++", "--") and a[0].isdigit():
+        return True
+    return False
+
+
+def render(lines, rng=None, style=None):
+    """render token lines to text; returns (text, positions) with positions[i] = (line, col) of the i-th token overall.
+    style None = canonical (one space between tokens, 4-space indent by brace depth)."""
+    out, pos = [], []
+    depth = 0
+    curline = 1
+    text_lines = []
+    def gap_between(a, b):
+        if rng is None or style is None:
+            if b in (";", ",", ")", "]") or a in ("(", "[") or (b in ("(", "[") and (a[0].isalpha() or a[0] in "_$") and a not in ("if", "for", "while", "switch", "return")) \
+                    or a in ("*",) and False:
+                return "" if not needs_space(a, b) else " "
+            return " "
+        r = rng.random()
+        if r < style["glue"] and not needs_space(a, b):
+            return ""
+        if r < style["glue"] + style["comment"]:
+            g = rng.choice([" /* c */ ", "/**/", " /* x y */", "/* */ "])
+            return " " + g if a.endswith("/") and g.startswith("/") else g
+        if r < style["glue"] + style["comment"] + style["wide"]:
+            return rng.choice(["  ", "\t", "   ", " \t "])
+        return " "
+    pending = ""       # text of the current physical line
+    for li, toks in enumerate(lines):
+        if toks and toks[0] == "}":
+            depth = max(0, depth - 1)
+        if rng is not None and style is not None:
+            # vertical layout before this logical line
+            join = pending != "" and rng.random() < style["join"]
+            if not join:
+                if pending != "":
+                    text_lines.append(pending); pending = ""
+                for _ in range(rng.choice([0, 0, 0, 1, 2]) if rng.random() < style["blank"] else 0):
+                    text_lines.append(rng.choice(["", "  ", "// note", "/* note */", "\t// x"]))
+                if rng.random() < style["bcline"]:
+                    text_lines.append("/* multi"); text_lines.append("   line */")
+                pending = rng.choice(["", " ", "  ", "\t", "    ", "      "]) if rng.random() < style["indent"] else "    " * depth
+            else:
+                pending += rng.choice([" ", "  ", " /* j */ "])
+        else:
+            if pending != "":
+                text_lines.append(pending)
+            pending = "    " * depth
+        for k, t in enumerate(toks):
+            if k > 0:
+                g = gap_between(toks[k - 1], t)
+                if rng is not None and style is not None and rng.random() < style["split"] and "\n" not in g:
+                    text_lines.append(pending + g.rstrip(" \t") if "/*" in g else pending)
+                    pending = rng.choice(["", "  ", "\t"])
+                else:
+                    pending += g
+            pos.append((len(text_lines) + 1, len(pending) + 1))
+            pending += t
+        if rng is not None and style is not None and rng.random() < style["trail"]:
+            pending += rng.choice([" // t", "  /* t */", " //"])
+            text_lines.append(pending); pending = ""
+        if toks and toks[-1] == "{":
+            depth += 1
+        # a `// comment` must end its physical line: handled above (line is flushed)
+    if pending != "":
+        text_lines.append(pending)
+    text = "\n".join(text_lines) + "\n"
+    return text, pos
+
+
+STYLES = {
+    "spaces": dict(glue=0.25, comment=0.0, wide=0.35, join=0.0, blank=0.0, bcline=0.0, indent=0.5, split=0.0, trail=0.0),
+    "comments": dict(glue=0.1, comment=0.2, wide=0.1, join=0.0, blank=0.5, bcline=0.15, indent=0.3, split=0.0, trail=0.3),
+    "lines": dict(glue=0.1, comment=0.0, wide=0.1, join=0.45, blank=0.3, bcline=0.0, indent=0.3, split=0.12, trail=0.0),
+    "oneline": dict(glue=0.0, comment=0.0, wide=0.0, join=1.0, blank=0.0, bcline=0.0, indent=0.0, split=0.0, trail=0.0),
+    "mixed": dict(glue=0.2, comment=0.1, wide=0.2, join=0.25, blank=0.3, bcline=0.1, indent=0.5, split=0.08, trail=0.15),
+}
+
+LAYOUT_SENSITIVE_IDS = {"suspiciousSemicolon", "duplicateBreak", "unreachableCode", "commaSeparatedReturn", "misleadingIndentation"}
+NAME_SENSITIVE_IDS = set()     # nothing excluded for renaming so far: injective renaming keeps shadowing relations
+
+
+_RUN_LOCK = __import__("threading").Lock()
+_RUN_CACHE = {}
+_RUN_SEQ = [0]
+
+
+def run_cppcheck(ctx, text, name="t.c", fresh=False):
+    """findings of one file (memoised per text; every run in its own directory)"""
+    with _RUN_LOCK:
+        if not fresh and text in _RUN_CACHE:
+            return _RUN_CACHE[text]
+        _RUN_SEQ[0] += 1
+        d = os.path.join(ctx.tmp, "cli", "r%06d" % _RUN_SEQ[0])
+    os.makedirs(d, exist_ok=True)
+    with open(os.path.join(d, name), "w") as fh:
+        fh.write(text)
+    r = None
+    for attempt in range(4):
+        try:
+            r = subprocess.run([ctx.cppcheck, "--enable=all", "--inconclusive", "--xml", "-q", "--language=c", name], cwd=d,
+                               stdout=subprocess.PIPE, stderr=subprocess.PIPE, timeout=120)
+        except OSError:
+            time.sleep(0.5); continue
+        if r.returncode == 0 and b"</results>" in r.stderr:
+            out = parse_xml(r.stderr.decode("utf-8", "replace"))
+            with _RUN_LOCK:
+                _RUN_CACHE.setdefault(text, out)
+            return out
+        time.sleep(0.3)      # the binary may be relinked by a concurrent check
+    raise core.CheckBroken("cppcheck run failed rc=%s: %s" % (getattr(r, "returncode", None), (r.stderr[-300:] if r else b"")))
+
+
+def parse_xml(x):
+    import xml.etree.ElementTree as ET
+    root = ET.fromstring(x)
+    out = []
+    for e in root.iter("error"):
+        locs = tuple((int(l.get("line", "0")), int(l.get("column", "0")), l.get("info", "")) for l in e.findall("location"))
+        syms = tuple(s.text or "" for s in e.findall("symbol"))
+        out.append(dict(id=e.get("id"), severity=e.get("severity"), inconclusive=e.get("inconclusive", ""), msg=e.get("msg", ""),
+                        verbose=e.get("verbose", ""), locs=locs, syms=syms))
+    return out
+
+
+LINE_IN_MSG = re.compile(r"\bline \d+")
+
+
+def canon_finding(f, posmap=None, namemap=None):
+    """canonical tuple of a finding, with locations / names mapped when maps are given.  Returns None if a location cannot be mapped."""
+    def nm(s):
+        if namemap:
+            s = re.sub(r"[A-Za-z_$][A-Za-z_0-9$]*", lambda m: namemap.get(m.group(0), m.group(0)), s)
+        return LINE_IN_MSG.sub("line #", s)
+    locs = []
+    for (l, c, info) in f["locs"]:
+        if posmap is not None:
+            if (l, c) not in posmap:
+                return None
+            l, c = posmap[(l, c)]
+        locs.append((l, c, nm(info)))
+    return (f["id"], f["severity"], f["inconclusive"], nm(f["msg"]), nm(f["verbose"]), tuple(locs), tuple(nm(s) for s in f["syms"]))
+
+
+def make_rewrite(rng, prog, kind, reserved_all):
+    """returns dict(kind, text0, text1, posmap, namemap, detail)"""
+    lines0 = layout_default(prog)
+    text0, pos0 = render(lines0)
+    namemap = None
+    if kind.startswith("layout"):
+        st = kind.split(":")[1]
+        text1, pos1 = render(lines0, rng, STYLES[st])
+        posmap = dict(zip(pos0, pos1))
+    elif kind == "rename":
+        pool = [n for n in NAME_POOL if n not in reserved_all and n not in prog["names"]]
+        extra = ["v%d_%s" % (i, rng.choice("abcdefgh")) for i in range(40)] + ["a_really_long_identifier_%d" % i for i in range(6)] + ["q", "w", "e_", "t"]
+        pool += [n for n in extra if n not in reserved_all and n not in prog["names"]]
+        rng.shuffle(pool)
+        namemap = {}
+        for n in prog["names"]:
+            if rng.random() < 0.8:
+                namemap[n] = pool.pop()
+        lines1 = [[namemap.get(t, t) for t in ln] for ln in lines0]
+        text1, pos1 = render(lines1)
+        posmap = dict(zip(pos0, pos1))
+    elif kind == "reorder":
+        n = len(prog["funcs"])
+        order = list(range(n))
+        while n > 1 and order == list(range(n)):
+            rng.shuffle(order)
+        lines1 = layout_default(prog, order)
+        text1, pos1 = render(lines1)
+        # token index map: structs + protos unchanged, function blocks permuted
+        idx0 = []      # for each function block: list of global token indices in layout 0
+        k = sum(len(t) for b in prog["structs"] for t in b["lines"]) + sum(len(b["proto"]) for b in prog["funcs"])
+        starts0 = []
+        for b in prog["funcs"]:
+            starts0.append(k); k += sum(len(t) for t in b["lines"])
+        posmap = {}
+        head = starts0[0] if starts0 else len(pos0)
+        for i in range(head):
+            posmap[pos0[i]] = pos1[i]
+        k1 = head
+        for bi in order:
+            nb = sum(len(t) for t in prog["funcs"][bi]["lines"])
+            for j in range(nb):
+                posmap[pos0[starts0[bi] + j]] = pos1[k1 + j]
+            k1 += nb
+    else:
+        raise ValueError(kind)
+    return dict(kind=kind, text0=text0, text1=text1, posmap=posmap, namemap=namemap)
+
+
+def compare_pair(ctx, rw, fresh=False):
+    """P_impl on one pair.  Returns (ok, detail dict)"""
+    f0 = run_cppcheck(ctx, rw["text0"], fresh=fresh)
+    f1 = run_cppcheck(ctx, rw["text1"], fresh=fresh)
+    excl = LAYOUT_SENSITIVE_IDS if rw["kind"].startswith("layout") else NAME_SENSITIVE_IDS if rw["kind"] == "rename" else set()
+    exp, unm = [], []
+    for f in f0:
+        if f["id"] in excl:
+            continue
+        c = canon_finding(f, rw["posmap"], rw["namemap"])
+        if c is None:
+            unm.append(f)
+        else:
+            exp.append(c)
+    got = [canon_finding(f) for f in f1 if f["id"] not in excl]
+    ce, cg = collections.Counter(exp), collections.Counter(got)
+    missing = list((ce - cg).elements())      # expected from the original, absent in the rewrite
+    extra = list((cg - ce).elements())
+    return (not missing and not extra and not unm), dict(missing=missing, extra=extra, unmappable=unm, n0=len(f0), n1=len(f1), ids0=sorted(set(f["id"] for f in f0)))
+
+
 def run(ctx, res):
     raise core.CheckBroken("C05 under construction")
